@@ -55,7 +55,7 @@ class SequenceMutator(CollectionAttrMutator):
         return (value_index, value_or_index)
 
     def _inserter(self, index, item, insert=False):  # pylint: disable=arguments-differ
-        if not check_type(item, self.attr_spec.item_type):
+        if not self._check_item(item):
             raise ValueError(
                 f"Attempted to add an invalid item `{repr(item)}` to `{self.attr_spec.qualified_name}`. Expected item of type `{type_label(self.attr_spec.item_type)}`."
             )
